@@ -1,9 +1,10 @@
 use crate::engine::Property;
 
+pub mod c01;
 pub mod t00;
 
 pub fn all() -> Vec<Box<dyn Property>> {
-    vec![Box::new(t00::T00)]
+    vec![Box::new(t00::T00), Box::new(c01::C01), Box::new(c01::C02)]
 }
 
 pub fn by_id(id: &str) -> Option<Box<dyn Property>> {
